@@ -7,12 +7,13 @@ set -u
 wt=/tmp/seedconf; export CARGO_TARGET_DIR=/tmp/seedconf-target
 [ -d $wt ] || git -C /repo worktree add --detach $wt HEAD >/dev/null
 cd $wt
-while read -r sid crate tname feats; do
+while read -r sid crate tname feats cfg; do
   [ -z "$sid" ] && continue
   d=/verif/seeded/$sid; log=$d/confirm.log; : > $log
   git checkout -- . ; git clean -fdq
   mkdir -p $crate/tests; cp $d/demo/$tname.rs $crate/tests/$tname.rs
   f=""; [ "$feats" != "-" ] && f="--features $feats"
+  if [ "${cfg:-}" = "verif" ]; then export RUSTFLAGS="--cfg p2panda_p2panda_verif"; else unset RUSTFLAGS; fi
   if ! git apply $d/patch.diff 2>>$log; then echo "patch does not apply to $(git rev-parse --short HEAD)" >> $log; continue; fi
   echo "== with change: demo ($(git rev-parse --short HEAD))" >> $log
   cargo test -p $crate --offline $f --test $tname 2>&1 | grep -E "^test |test result|error(\[|:)" | head -20 >> $log
